@@ -59,7 +59,7 @@ def gen_csv(rng, n, tier, h=0):
             e, nn, t = rng.choice(PERMS[3]); u = -1
         else:
             e, nn = rng.choice(PERMS[2]); u = -1; t = -1
-        out.append({'srid': srid, 'pts': [rand_xyz(rng, srid) for _ in range(k)], 'T': [rand_time(rng) for _ in range(k)], 'ids': [e, nn, u, t], 'sep': rng.choice([',', ';', '|', '\t']), 'h': h,
+        out.append({'srid': srid, 'pts': [rand_xyz(rng, srid) for _ in range(k)], 'T': [rand_time(rng) for _ in range(k)], 'ids': [e, nn, u, t], 'sep': rng.choice([',', ';', '|', '\t']), 'h': h if h == 0 else rng.choice([1, 1, 2, 3, 3]),
                     'prior': rng.choice([None, None, None, 'export', 'text'])})
     return out
 
@@ -150,10 +150,10 @@ S_CSV = Stream(
 
 S_CSVH = Stream(
     name='csv_header', budget={'quick': 100, 'thorough': 2000},
-    rule='the same with the header flag: written with h=1 (srid / reference point / column-name comment lines) and read with h=1; the data lines are compared with the model as in the csv stream',
+    rule='the same with the header option: written with h = 1, 2 or 3 (the writer puts three comment lines: srid / reference point / column names) and read with the same h (the reader skips h lines, then every comment line); the data lines are compared with the model as in the csv stream',
     imports=S_CSV.imports, case_type=S_CSV.case_type, check_def=CSV_CHECK,
     generate=lambda rng, n, tier: gen_csv(rng, n, tier, h=1), run_impl=run_csv, coq_case=coq_csv, oracle=oracle_csv, finding_key=finding_csv,
-    klass=lambda c, o: 'h=1')
+    klass=lambda c, o: 'h=%d,%s' % (c['h'], c['srid']))
 
 
 # ------------------------------------------------------------------ GPX
